@@ -11,43 +11,38 @@ def signedPower (c : Commit) : List Val → List CSig → Int
       + signedPower c vs ss
   | _, _ => 0
 
-def NonNeg (vals : List Val) : Prop := ∀ v ∈ vals, 0 ≤ v.power
-
 theorem signedPower_nonneg (c : Commit) : ∀ (vals : List Val) (sigs : List CSig),
-    NonNeg vals → 0 ≤ signedPower sigOK c vals sigs := by
+    0 ≤ signedPower sigOK c vals sigs := by
   intro vals
   induction vals with
-  | nil => intro sigs _; simp [signedPower]
+  | nil => intro sigs; simp [signedPower]
   | cons v vs ih =>
-    intro sigs h
+    intro sigs
     cases sigs with
     | nil => simp [signedPower]
     | cons s ss =>
-      have hv : 0 ≤ v.power := h v (by simp)
-      have := ih ss (fun x hx => h x (by simp [hx]))
+      have := ih ss
       simp only [signedPower]
       split <;> omega
 
 /-- what an accepting run of the `VerifyCommitLight` loop has established -/
 theorem lightLoop_ok (c : Commit) (need : Int) : ∀ (vals : List Val) (sigs : List CSig) (idx : Nat)
-    (tally : Int), NonNeg vals → lightLoop sigOK c need vals sigs idx tally = .ok () →
+    (tally : Int), lightLoop sigOK c need vals sigs idx tally = .ok () →
     tally + signedPower sigOK c vals sigs > need := by
   intro vals
   induction vals with
-  | nil => intro sigs idx tally _ h; simp [lightLoop] at h
+  | nil => intro sigs idx tally h; simp [lightLoop] at h
   | cons v vs ih =>
-    intro sigs idx tally hn h
+    intro sigs idx tally h
     cases sigs with
     | nil => simp [lightLoop] at h
     | cons s ss =>
-      have hv : 0 ≤ v.power := hn v (by simp)
-      have hn' : NonNeg vs := fun x hx => hn x (by simp [hx])
-      have hnn := signedPower_nonneg sigOK c vs ss hn'
+      have hnn := signedPower_nonneg sigOK c vs ss
       unfold lightLoop at h
       simp only [signedPower]
       split at h
       · rename_i hf
-        have := ih ss _ _ hn' h
+        have := ih ss _ _ h
         simp [hf]; omega
       · rename_i hf
         have hf' : s.flag = .commit := by simpa using hf
@@ -58,17 +53,14 @@ theorem lightLoop_ok (c : Commit) (need : Int) : ∀ (vals : List Val) (sigs : L
           simp only [hf', hs', and_self, if_true]
           split at h
           · omega
-          · have := ih ss _ _ hn' h
+          · have := ih ss _ _ h
             omega
 
-theorem totalPower_nonneg : ∀ (vals : List Val), NonNeg vals → 0 ≤ totalPower vals := by
+theorem totalPower_nonneg : ∀ (vals : List Val), 0 ≤ totalPower vals := by
   intro vals
   induction vals with
-  | nil => intro _; simp [totalPower]
+  | nil => simp [totalPower]
   | cons v vs ih =>
-    intro h
-    have hv : 0 ≤ v.power := h v (by simp)
-    have := ih (fun x hx => h x (by simp [hx]))
     simp [totalPower] at *
     omega
 
@@ -83,7 +75,7 @@ def Quorum (vals : List Val) (id : BlockId) (h : Int) (c : Commit) : Prop :=
     3 * signedPower sigOK c vals c.sigs > 2 * totalPower vals
 
 theorem verifyCommitLight_quorum (vals : List Val) (id : BlockId) (h : Int) (c : Commit)
-    (hn : NonNeg vals) (hv : verifyCommitLight sigOK vals id h c = .ok ()) :
+    (hv : verifyCommitLight sigOK vals id h c = .ok ()) :
     Quorum sigOK vals id h c := by
   unfold verifyCommitLight at hv
   split at hv; · cases hv
@@ -92,8 +84,8 @@ theorem verifyCommitLight_quorum (vals : List Val) (id : BlockId) (h : Int) (c :
   rename_i h2
   split at hv; · cases hv
   rename_i h3
-  have := lightLoop_ok sigOK c (needed vals) vals c.sigs 0 0 hn hv
-  have ht := totalPower_nonneg vals hn
+  have := lightLoop_ok sigOK c (needed vals) vals c.sigs 0 0 hv
+  have ht := totalPower_nonneg vals
   refine ⟨by omega, by omega, ?_, ?_⟩
   · exact (Decidable.not_not.mp h3).symm
   · unfold needed at this
